@@ -2,8 +2,8 @@
    run_fast / run_ops / inc_i32 / dec_i32 / neg_ops_i32 are REGENERATED from /repo on every run
    (coq/Gen/FastPaths.v, tools/gen_c02.py); the primitives with explicit panics are Model_C02.v. *)
 From Coq Require Import ZArith Bool List Lia.
-From C02 Require Import Model_C02 Proofs_C02.
-From Gen Require Import FastPaths.
+From C02 Require Import Model_C02 Proofs_C02 DeepModel_C02 Deep_C02.
+From Gen Require Import FastPaths IndexPaths.
 Local Open Scope Z_scope.
 
 (* For ALL pairs of i32 operands, in the debug (overflow-checked) and the release profile, no binary fast
@@ -72,6 +72,88 @@ Theorem neg_gap_decided : neg_gap_open \/ neg_gap_closed.
 Proof. exact neg_gap_decided_lemma. Qed.
 Check neg_gap_decided : neg_gap_open \/ neg_gap_closed.
 Print Assumptions neg_gap_decided.
+
+(* ------------------------------------------------------------------------------------------------------
+   Deepening round: index arithmetic on script-controlled ToIntegerOrInfinity results (coq/Gen/IndexPaths.v,
+   regenerated from builtins/{string,array,typed_array} by tools/gen_c02b.py), 64-bit primitives of DeepModel_C02.v.
+   no_panic r : r is not Panic (either profile);  idx_sat r P : the index computed, if any, satisfies P. *)
+(* String.prototype.slice: both bounds are computed without overflow and lie in [0, len] (slice_unchecked is safe) *)
+Theorem string_slice_safe : forall p len s, valid_len len -> ioi_ok s ->
+  (no_panic (string_slice_from p len s) /\ idx_sat (string_slice_from p len s) (fun k => 0 <= k <= len)) /\
+  (no_panic (string_slice_to p len s) /\ idx_sat (string_slice_to p len s) (fun k => 0 <= k <= len)).
+Proof. exact string_slice_safe_lemma. Qed.
+Check string_slice_safe : forall p len s, valid_len len -> ioi_ok s ->
+  (no_panic (string_slice_from p len s) /\ idx_sat (string_slice_from p len s) (fun k => 0 <= k <= len)) /\
+  (no_panic (string_slice_to p len s) /\ idx_sat (string_slice_to p len s) (fun k => 0 <= k <= len)).
+Print Assumptions string_slice_safe.
+
+(* String.prototype.substr: `size + intStart`, `clamp(0, size)` total *)
+Theorem string_substr_safe : forall p size s, valid_len size -> ioi_ok s ->
+  no_panic (string_substr_start p size s) /\ idx_sat (string_substr_start p size s) (fun k => 0 <= k <= i64_max) /\
+  no_panic (string_substr_end p size s) /\ idx_sat (string_substr_end p size s) (fun k => 0 <= k <= size).
+Proof. exact string_substr_safe. Qed.
+Check string_substr_safe : forall p size s, valid_len size -> ioi_ok s ->
+  no_panic (string_substr_start p size s) /\ idx_sat (string_substr_start p size s) (fun k => 0 <= k <= i64_max) /\
+  no_panic (string_substr_end p size s) /\ idx_sat (string_substr_end p size s) (fun k => 0 <= k <= size).
+Print Assumptions string_substr_safe.
+
+(* Array::get_relative_start/end (slice, splice, fill, copyWithin, toSpliced, ...): total, result in [0, len] *)
+Theorem array_relative_safe : forall p len s, in_u64 len -> ioi_ok s ->
+  no_panic (array_relative_start p len s) /\ idx_sat (array_relative_start p len s) (fun k => 0 <= k <= len) /\
+  no_panic (array_relative_end p len s) /\ idx_sat (array_relative_end p len s) (fun k => 0 <= k <= len).
+Proof. exact array_relative_safe. Qed.
+Check array_relative_safe : forall p len s, in_u64 len -> ioi_ok s ->
+  no_panic (array_relative_start p len s) /\ idx_sat (array_relative_start p len s) (fun k => 0 <= k <= len) /\
+  no_panic (array_relative_end p len s) /\ idx_sat (array_relative_end p len s) (fun k => 0 <= k <= len).
+Print Assumptions array_relative_safe.
+
+(* %TypedArray%.prototype.at: `len + i` cannot overflow *)
+Theorem typed_array_at_total : forall p len s, valid_len len -> ioi_ok s -> no_panic (typed_array_at p len s).
+Proof. exact typed_array_at_safe. Qed.
+Check typed_array_at_total : forall p len s, valid_len len -> ioi_ok s -> no_panic (typed_array_at p len s).
+Print Assumptions typed_array_at_total.
+
+(* Array.prototype.lastIndexOf: `len - 1`, `len + n` total *)
+Theorem array_last_index_of_safe : forall p len s, valid_len len -> ioi_ok s ->
+  no_panic (array_last_index_of_from p len s) /\ idx_sat (array_last_index_of_from p len s) (fun k => k <= len - 1).
+Proof. exact array_last_index_of_safe. Qed.
+Check array_last_index_of_safe : forall p len s, valid_len len -> ioi_ok s ->
+  no_panic (array_last_index_of_from p len s) /\ idx_sat (array_last_index_of_from p len s) (fun k => k <= len - 1).
+Print Assumptions array_last_index_of_safe.
+
+(* String.prototype.at is safe except for the saturated i64::MIN *)
+Theorem string_at_safe_except_min : forall p len s, valid_len len -> ioi_ok s -> s <> IInt i64_min ->
+  no_panic (string_at p len s) /\ idx_sat (string_at p len s) (fun k => 0 <= k < len).
+Proof. exact string_at_safe_except_min. Qed.
+Check string_at_safe_except_min : forall p len s, valid_len len -> ioi_ok s -> s <> IInt i64_min ->
+  no_panic (string_at p len s) /\ idx_sat (string_at p len s) (fun k => 0 <= k < len).
+Print Assumptions string_at_safe_except_min.
+
+(* Array.prototype.at likewise *)
+Theorem array_at_safe_except_min : forall p len s, valid_len len -> ioi_ok s -> s <> IInt i64_min ->
+  no_panic (array_at p len s) /\ idx_sat (array_at p len s) (fun k => 0 <= k < len).
+Proof. exact array_at_safe_except_min. Qed.
+Check array_at_safe_except_min : forall p len s, valid_len len -> ioi_ok s -> s <> IInt i64_min ->
+  no_panic (array_at p len s) /\ idx_sat (array_at p len s) (fun k => 0 <= k < len).
+Print Assumptions array_at_safe_except_min.
+
+(* decided on the regenerated source: open (`-i` overflows for i64::MIN: panic with overflow checks, index 2^63+1 without) or safe everywhere *)
+Theorem string_at_decided : string_at_open \/ at_safe string_at.
+Proof. exact string_at_decided_lemma. Qed.
+Check string_at_decided : string_at_open \/ at_safe string_at.
+Print Assumptions string_at_decided.
+
+(* same for `i.abs()` in Array.prototype.at *)
+Theorem array_at_decided : array_at_open \/ at_safe array_at.
+Proof. exact array_at_decided_lemma. Qed.
+Check array_at_decided : array_at_open \/ at_safe array_at.
+Print Assumptions array_at_decided.
+
+(* JumpTable: the register value (`i as usize`) is only used through `addresses.get(offset)` *)
+Theorem jump_table_safe : forall addresses i pc, jump_table_target addresses i = Some pc -> In pc addresses.
+Proof. exact jump_table_safe. Qed.
+Check jump_table_safe : forall addresses i pc, jump_table_target addresses i = Some pc -> In pc addresses.
+Print Assumptions jump_table_safe.
 
 (* hypotheses are satisfiable / definitions are not vacuous *)
 Example ex_add_overflow : run_fast Debug Add i32_max 1 = Ok (Some (JF64 (FAdd (FofI32 i32_max) (FofI32 1)))).
